@@ -8,7 +8,7 @@
    Spec: Spec/Clock.v (wall_ok, wall_of, instant_of, clock_of, shown, shift_add, shift_sub,
    clock_diff, clock_text). *)
 From Coq Require Import ZArith Floats.
-From SC.Model Require Import Base Num NumF64 Types Config Case Chrono Regex Rx Parser RuleFns Items Format Lexer Api Run64 Corr.
+From SC.Model Require Import Base Num NumF64 Types Config Case Chrono Regex Rx UiTokens Parser RuleFns Rules Items Format Lexer Api Run64 Corr.
 From SC.Spec Require Import Clock.
 From SC.Gen Require Import RustConsts ConfigData Regexes.
 From SC.Proofs Require Import C11.
@@ -149,7 +149,58 @@ Theorem C11_to_duration_walls : forall (vs : vars F) fs day w1 w2 z,
   to_duration vs fs = Ok (Some (TDuration (clock_diff w1 w2))).
 Proof. exact to_duration_walls. Qed.
 
+(* ---- literals.  The token time_body makes from a match of a time regex: for ALL days, ALL
+   default zones (|offset| < 24 h) and all values the hour / minute / second groups read as, it
+   is the instant of that wall time of today in the default zone, carrying the default zone; a
+   "pm" meridiem adds 12 to hours 0..11 *)
+Theorem C11_literal_token : forall (today : Z) (cfg : config F) line c cp (st : Lexer.tstate) hsp h0 m sec b e,
+  cap_name c cp "hour" = Some hsp -> parse_i64 (slice line hsp) = Some h0 ->
+  group_reads line (cap_name c cp "minute") m ->
+  group_reads line (cap_name c cp "second") sec ->
+  cap_get cp 0 = Some (b, e) ->
+  let h := if is_pm line (cap_name c cp "meridiem") && (h0 <? 12) && (0 <=? h0) then h0 + 12 else h0 in
+  Z.abs (tz_off (cf_tz cfg)) < 1440 -> h < 24 -> m < 60 -> sec < 60 ->
+  exists en,
+    time_body today cfg line c cp st =
+    let '(st1, ok) := add_token st b en
+          (Some (TTime (instant_of today (wall_of h m sec) (tz_off (cf_tz cfg))) (cf_tz cfg))) (slice line (b, e)) in
+    Ok (if ok then with_ui st1 (ui_add line (ts_ui st1) b e UDateTime) else st1).
+Proof. exact time_body_token. Qed.
+
 End WithNum.
+
+(* ... and which groups the five time regexes of config.json deliver (finite, executed): every
+   H:MM / HH:MM of the day under three default zones (UTC, GMT+5:30, HNT = -3:30) ... *)
+Theorem C11_literal_hm : forall cfg h hs m,
+  In cfg lit_cfgs -> 0 <= h < 24 -> In hs (hour_spellings h) -> 0 <= m < 60 ->
+  literal_tokens DAY1 cfg (text_hm hs m) = whole_line_time DAY1 cfg (text_hm hs m) (wall_of h m 0).
+Proof. exact literal_hm. Qed.
+
+(* ... every H:MM:SS with minutes 0, 7, 30, 59 ... *)
+Theorem C11_literal_hms : forall h hs m sec,
+  0 <= h < 24 -> In hs (hour_spellings h) -> In m some_minutes -> 0 <= sec < 60 ->
+  literal_tokens DAY1 default_config (text_hms hs m sec)
+    = whole_line_time DAY1 default_config (text_hms hs m sec) (wall_of h m sec).
+Proof. exact literal_hms. Qed.
+
+(* ... and every 1-11 am/pm form: H:MM am, H:MMam, HH:MM am, H am, Ham with am/pm/AM/PM/Pm *)
+Theorem C11_literal_ampm : forall h hs mer pm sep m,
+  1 <= h <= 11 -> In hs (hour_spellings h) -> In (mer, pm) meridiems -> In sep seps -> 0 <= m < 60 ->
+  literal_tokens DAY1 default_config (text_hm hs m ++ sep ++ mer)
+    = whole_line_time DAY1 default_config (text_hm hs m ++ sep ++ mer) (wall_of (hour24 h pm) m 0) /\
+  literal_tokens DAY1 default_config (hs ++ sep ++ mer)
+    = whole_line_time DAY1 default_config (hs ++ sep ++ mer) (wall_of (hour24 h pm) 0 0).
+Proof. exact literal_ampm. Qed.
+
+(* KNOWN deviation from the statement's 'H:MM[:SS] with optional am/pm': the two regexes with
+   seconds have no meridiem group, so 'H:MM:SS pm' is read as H:MM:SS (am); 12:xx am is 12:xx
+   (left out by the statement) *)
+Theorem C11_meridiem_with_seconds_refuted :
+  literal_tokens DAY1 default_config (s "1:20:30 pm")
+    = Some [(0%N, 7%N, Some (TTime (instant_of DAY1 (wall_of 1 20 30) 0) {| tz_name := s "UTC"; tz_off := 0 |}))] /\
+  option_map fst (run_line default_config (s "1:20:30 pm")) = Some (s "01:20:30 UTC") /\
+  option_map fst (run_line default_config (s "12:30 am")) = Some (s "12:30:00 UTC").
+Proof. exact meridiem_with_seconds_refuted. Qed.
 
 (* ---- finite table (regenerated from config.json on every run): every zone name of the table
    that [A-Z]{2,4} can express and that is not a currency code (174 of 191), through the whole
@@ -250,6 +301,11 @@ Print Assumptions C11_calc_total.
 Print Assumptions C11_calc_prints.
 Print Assumptions C11_to_duration.
 Print Assumptions C11_to_duration_walls.
+Print Assumptions C11_literal_token.
+Print Assumptions C11_literal_hm.
+Print Assumptions C11_literal_hms.
+Print Assumptions C11_literal_ampm.
+Print Assumptions C11_meridiem_with_seconds_refuted.
 Print Assumptions C11_zone_table.
 Print Assumptions C11_zone_table_size.
 Print Assumptions C11_gmt_forms.
